@@ -396,6 +396,9 @@ func (w *world) step(i int, rq req, mode string) string {
 		if e := os.Rename(w.file+".durable", w.file); e != nil {
 			w.c.HarnessTrouble("move key back: %v", e)
 		}
+		if ents, e := os.ReadDir(w.dir); e == nil && len(ents) > 1 {
+			w.c.Probe("temp_file_left_after_failed_save")
+		}
 	}
 	after := fileSig(w.file)
 	w.c.Event(1)
